@@ -1,9 +1,13 @@
 (* Case checker for C07 (itemization).
-   kind 1  = the model (on a fresh Segmenter) and the implementation (after the case's reuse history) differ;
-   kind 2  = the implementation's output violates the specification (check_itemization, reference bidi parity,
-             hypothesis on the x/text result, ScriptToLang coherence).
+   kind 1  = the model (on a fresh Segmenter, from the raw runes, x/text answering per paragraph) and the implementation
+             (after the case's reuse history) differ - on the runs returned by Split, on the runs of splitByBidi alone
+             (hook VerifSplitByBidi), on isParagraphSeparator of a rune of the text - or the model asks x/text about a
+             paragraph the driver did not ask about;
+   kind 2  = the implementation's output violates the specification (check_itemization with the bidi run list of the
+             model, direction of every rune = x/text's within its paragraph, reference bidi parity of the driver,
+             hypothesis xbidi_wf on the x/text results, ScriptToLang coherence).
    (Finding F26, multi-paragraph ranges, is fixed: there is no kind >= 10 any more.) *)
-From TV Require Export Model.Itemize Spec.Itemize.
+From TV Require Export Lib.Bytes Model.Itemize Spec.Itemize Model.ItemizeBidi Spec.ItemizeBidi.
 Open Scope Z_scope.
 
 Record case := mkCase {
@@ -14,7 +18,11 @@ Record case := mkCase {
   k_text : list (Z * Z * Z * list Z);   (* per rune: script index, delimiter index, flags, face id per hint key *)
   k_hint : bool;                        (* the Fontmap implements FontmapScript *)
   k_in : list Z;                        (* RunStart, RunEnd, direction bits, face id, size, script *)
-  k_bidi : option (list (Z * bool));    (* x/text on the paragraphs of Text[RunStart:RunEnd]: per run (end rune, RightToLeft) *)
+  k_runes : list Z;                     (* Input.Text *)
+  k_xtab : list (list Z * option (list (Z * bool)));
+                                        (* golang.org/x/text/unicode/bidi, default direction = progression of the input:
+                                           string of a paragraph |-> None (error / no run) or per run (Pos() end, RightToLeft) *)
+  k_bidi_out : list (list Z);           (* hook VerifSplitByBidi on a fresh Segmenter: per run start, end, direction *)
   k_out : list (list Z)                 (* per run: start, end, direction, script, language, face, text, size, features *)
 }.
 
@@ -23,8 +31,8 @@ Definition nz (l : list Z) (k : nat) : Z := nth k l (-9).
 
 Definition keys_of (c : case) : list Z := if k_hint c then k_scripts c else [-1].
 (* per rune: index of its script in k_scripts, delimiter index, flags, faces.
-   flags: bit 0 ignoreFaceChange, bit 1 reference parity RTL, bit 2 no reference parity, bit 3 bidi class B (inside the
-   range), bit 4+j sideways under k_scripts[j] *)
+   flags: bit 0 ignoreFaceChange, bit 1 reference parity RTL, bit 2 no reference parity, bit 3 isParagraphSeparator
+   (hook), bit 4+j sideways under k_scripts[j] *)
 Definition obs_of (c : case) (t : Z * Z * Z * list Z) : obs :=
   let '(sc, de, f, faces) := t in
   mkObs (nth (Z.to_nat sc) (k_scripts c) (-7)) de (Z.testbit f 0)
@@ -38,11 +46,20 @@ Definition sinfo_tab (c : case) : list (Z * (Z * Z * Z)) := combine (k_scripts c
 Definition use_of (c : case) (s : Z) : bool := negb (fst (fst (assoc (1, 0, 1) (sinfo_tab c) s)) =? 0).
 Definition stl_of (c : case) (s : Z) : Z := snd (fst (assoc (1, 0, 1) (sinfo_tab c) s)).
 
-Definition env_of (c : case) : env :=
-  mkEnv (map (obs_of c) (k_text c)) (k_bidi c) (if k_langid c <? 0 then None else Some (k_langid c))
-        (use_of c) (stl_of c) (k_hint c).
 Definition in_of (c : case) : input :=
   let l := k_in c in mkIn 1 (nz l 0) (nz l 1) (dir_of (nz l 2)) (nz l 3) 1 (nz l 4) (nz l 5) (-1).
+(* x/text as a function: the driver's answers (all for the default direction of this case) *)
+Fixpoint xlookup (tab : list (list Z * option (list (Z * bool)))) (p : list Z) : option (list (Z * bool)) :=
+  match tab with
+  | [] => None
+  | (k, v) :: r => if list_Z_eqb k p then v else xlookup r p
+  end.
+Definition xbidi_of (c : case) : list Z -> bool -> option (list (Z * bool)) := fun p _ => xlookup (k_xtab c) p.
+Definition tenv_of (c : case) : tenv :=
+  mkTenv (xbidi_of c) (k_runes c)
+         (mkEnv (map (obs_of c) (k_text c)) None (if k_langid c <? 0 then None else Some (k_langid c))
+                (use_of c) (stl_of c) (k_hint c)).
+Definition env_of (c : case) : env := env_of_text (tenv_of c) (in_of c).
 Definition run_of (l : list Z) : input :=
   mkIn (nz l 6) (nz l 0) (nz l 1) (dir_of (nz l 2)) (nz l 5) (nz l 8) (nz l 7) (nz l 3) (nz l 4).
 Definition out_of (c : case) : list input := map run_of (k_out c).
@@ -54,9 +71,33 @@ Fixpoint inputs_eqb (a b : list input) : bool :=
   | _, _ => false
   end.
 
+(* the runs of splitByBidi alone: range and direction *)
+Fixpoint bidi_out_eqb (a : list input) (b : list (list Z)) : bool :=
+  match a, b with
+  | [], [] => true
+  | r :: a', l :: b' => (i_start r =? nz l 0) && (i_end r =? nz l 1) && dir_eqb (i_dir r) (dir_of (nz l 2)) && bidi_out_eqb a' b'
+  | _, _ => false
+  end.
+(* every paragraph the model hands to x/text is one the driver handed to x/text *)
+Definition xtab_covers (c : case) : bool :=
+  forallb (fun ab => existsb (fun kv => list_Z_eqb (fst kv) (para_string (k_runes c) (fst ab) (snd ab))) (k_xtab c))
+          (paragraphs_of (k_runes c) (in_of c)).
+Fixpoint seps_agree (rs : list Z) (ts : list (Z * Z * Z * list Z)) : bool :=
+  match rs, ts with
+  | [], [] => true
+  | r :: rs', t :: ts' => Bool.eqb (is_para_sep r) (is_b t) && seps_agree rs' ts'
+  | _, _ => false
+  end.
+
 Definition corr_ok (c : case) : bool :=
   (k_common c =? SC_COMMON) && (k_inherited c =? SC_INHERITED) &&
-  match split_runs (env_of c) seg_zero (in_of c) with
+  seps_agree (k_runes c) (k_text c) &&
+  (negb (range_ok (t_env (tenv_of c)) (in_of c)) || xtab_covers c) &&
+  match split_by_bidi_text (xbidi_of c) (k_runes c) (in_of c) with
+  | Ok b => bidi_out_eqb b (k_bidi_out c)
+  | _ => false
+  end &&
+  match split_text_runs (tenv_of c) seg_zero (in_of c) with
   | Ok runs => inputs_eqb runs (out_of c)
   | _ => false
   end.
@@ -65,10 +106,18 @@ Definition corr_ok (c : case) : bool :=
 Definition stl_coherent (c : case) : bool :=
   forallb (fun t => let '(_, stl, u) := t in (stl =? 0) || negb (u =? 0)) (k_sinfo c).
 
+(* the runs the implementation's splitByBidi produced: consecutive over the range, neighbours of different directions *)
+Definition bidi_run_of (l : list Z) : input := mkIn 1 (nz l 0) (nz l 1) (dir_of (nz l 2)) 0 1 0 0 (-1).
+Definition bidi_out_ok (c : case) : bool :=
+  let b := map bidi_run_of (k_bidi_out c) in
+  chainb (i_start (in_of c)) (i_end (in_of c)) b && alternating b.
+
 Definition core_ok (c : case) : bool :=
   let e := env_of c in let x := in_of c in
   if range_ok e x then
-    check_itemization e x (out_of c) && bidi_wf (i_end x - i_start x) (k_bidi c) && stl_coherent c
+    bidi_out_ok c &&
+    check_itemization e x (out_of c) && xbidi_wf (xbidi_of c) (k_runes c) x
+    && parity_text_ok (xbidi_of c) (k_runes c) x (out_of c) && stl_coherent c
   else if i_end x <=? i_start x then empty_ok e x (out_of c)
   else true.
 Definition ref_ok (c : case) : bool :=
